@@ -105,16 +105,14 @@ def gen_wellformed(r):
             if not data_ok(data, b, lf_mode):
                 ok = False
             body += b"--" + b + eol
-            cd = b'Content-Disposition: form-data; name="' + quote(name) + b'"'
+            # the header, possibly folded over two or three lines (continuation lines start with SP / HT) at the parameter separators -- never inside
+            # a quoted value --: the continuation is often LONGER than what has been assembled so far
+            fold = r.random() < 0.25
+            def sep():
+                return (b";" + eol + r.choice([b" ", b"\t", b"  "])) if (fold and r.random() < 0.7) else b"; "
+            cd = b'Content-Disposition: form-data' + sep() + b'name="' + quote(name) + b'"'
             if isfile:
-                cd += b'; filename="' + quote(fn) + b'"'
-            if r.random() < 0.25:
-                # the header folded over two or three lines (continuation lines start with SP / HT), cut after a parameter separator: the
-                # continuation is often LONGER than what has been assembled so far
-                cuts_at = [i + 1 for i in range(len(cd)) if cd[i:i + 1] == b";" and cd[i + 1:i + 2] == b" "]
-                r.shuffle(cuts_at)
-                for cpos in sorted(cuts_at[:r.choice([1, 1, 2])], reverse=True):
-                    cd = cd[:cpos] + eol + r.choice([b" ", b"\t", b"  "]) + cd[cpos + 1:]
+                cd += sep() + b'filename="' + quote(fn) + b'"'
             body += cd + eol
             if ct is not None:
                 body += b"Content-Type: " + ct + eol
